@@ -9,6 +9,7 @@ DET = {"p_h_stoch": 0.0, "p_e": 0.0}
 PROFILES = [
     ("deterministic, filtered-and-unfiltered-choice", {**DET, "p_r": 1.0, "p_b": 1.0}),
     ("deterministic, random", DET),
+    ("deterministic, three-label restricted choice", {**DET, "p_r": 1.0, "sizes": {"a": 3, "r": 3}, "p_b": 0.5, "all_admitted": True}),
     ("deterministic, period-varying-space", {**DET, "p_r": 1.0, "p_per_filter": 1.0, "T": [2, 3]}),
     ("deterministic, discrete-only", {**DET, "p_w": 0.0, "p_z": 0.0, "p_h": 1.0, "p_r": 0.7, "T": [2, 3]}),
     ("stochastic (period-0 decision and value)", {"p_h": 1.0, "p_h_stoch": 1.0, "T": [2, 3]}),
@@ -62,7 +63,7 @@ def run(ctx: Ctx) -> Result:
 
         mc = mc_or_die("MC_Sim", "MC_Sim.cfg", workers=16)
         res.merge_cov(states=mc["distinct"], transitions=mc["generated"], mc_states=mc["distinct"])
-    specs = make_specs(ctx, ctx.n(40, 600))
+    specs = make_specs(ctx, ctx.n(54, 700))
     run_pipeline(ctx, res, specs, nontrivial=lambda s: s["plan"][0]["init"] and len(next(iter(s["plan"][0]["init"].values()))) >= 2)
     finalize_cov(res, "seeded random models (4 deterministic strata + 1 stochastic); each case simulates a reference batch "
                       "and its permutation, a shuffled subset, a batch with duplicated agents and the batch with the keys of "
